@@ -90,6 +90,12 @@ def guard(fn):
         return "X:%s" % type(ex).__name__
 
 
+# variable names vary from term to term (the implementation keeps variables in sets: their order depends on the names)
+NAME_PAIRS = [["x", "y"], ["a", "b"], ["b", "a"], ["lhs", "rhs"], ["v", "w"], ["n1", "n2"], ["p", "q"], ["s", "t"], ["i", "j"], ["foo", "bar"],
+              ["k", "key"], ["u", "v0"], ["left", "right"], ["c", "d"], ["e", "f"], ["g", "h"], ["m", "n"], ["o", "r"], ["y", "x"], ["z", "zz"],
+              ["aa", "ab"], ["x1", "x2"], ["fst", "snd"], ["hd", "tl"], ["val", "var"], ["t1", "t0"], ["A", "B"], ["q", "p"], ["w", "v"], ["l", "r"]]
+
+
 def lift(t, names):
     """replace the first string literals that are direct or nested arguments by variables"""
     env = {}
@@ -213,7 +219,7 @@ def run(task):
             rec["z"] = guard(lambda: z3_truth(ground))
             rec["i1"] = guard(lambda: tv(is_valid(ground)))
             # route 2: SMTFormula with variables, instantiated by substitution
-            lifted, env = lift(atom, ["x", "y"])
+            lifted, env = lift(atom, NAME_PAIRS[case["id"] % len(NAME_PAIRS)])
             if env:
                 def route2():
                     expr = parse(smt.to_smt2(lifted), env.keys())
